@@ -428,10 +428,23 @@ func runWritePath(c *core.Ctx) {
 		}
 	}
 	c.Check(okWrite, nil, fname(c, loop), "Marshal→Write(text)", P.Pos(wpos), "the marshalled bytes are written with conn.Write(ctx, MessageText, bytes)", detail)
-	// conn.Write has a single call site in the module
+	// every conn.Write call site sits in a function whose only module callers are the write loop
 	n := 0
+	var foreign []string
 	for _, fn := range P.ModFuncs {
-		n += len(callsNamed(fn, "(*github.com/coder/websocket.Conn).Write"))
+		ws := callsNamed(fn, "(*github.com/coder/websocket.Conn).Write")
+		if len(ws) == 0 {
+			continue
+		}
+		n += len(ws)
+		if fn == loop {
+			continue
+		}
+		for _, caller := range P.ModFuncs {
+			if len(callsTo(caller, fn)) > 0 && caller != loop {
+				foreign = append(foreign, fname(c, caller)+"→"+fname(c, fn))
+			}
+		}
 	}
-	c.Check(n == 1, nil, fname(c, loop), "single-writer", P.Pos(loop.Pos()), "conn.Write has exactly one call site", fmt.Sprintf("conn.Write has %d call sites: frames of different writers can interleave", n))
+	c.Check(n >= 1 && len(foreign) == 0, nil, fname(c, loop), "single-writer", P.Pos(loop.Pos()), fmt.Sprintf("all %d conn.Write call site(s) are reached only from the write loop", n), fmt.Sprintf("conn.Write is reachable from outside the write loop (%v): frames of different writers can interleave", foreign))
 }
